@@ -70,9 +70,9 @@ func c05GenElem(rt *rapid.T, cfg *c05GenCfg, depth int, inMap bool) *c05Typ {
 	case "pscalar":
 		return &c05Typ{K: c05GenScalarKind(rt, false), P: true}
 	case "struct":
-		return &c05Typ{K: "struct", F: c05GenFields(rt, cfg, depth+1, 3, false)}
+		return &c05Typ{K: "struct", F: c05GenFields(rt, cfg, depth+1, 3, "")}
 	case "pstruct":
-		return &c05Typ{K: "struct", P: true, F: c05GenFields(rt, cfg, depth+1, 3, false)}
+		return &c05Typ{K: "struct", P: true, F: c05GenFields(rt, cfg, depth+1, 3, "")}
 	case "slice":
 		return &c05Typ{K: "slice", E: &c05Typ{K: c05GenScalarKind(rt, false)}}
 	case "map":
@@ -81,20 +81,22 @@ func c05GenElem(rt *rapid.T, cfg *c05GenCfg, depth int, inMap bool) *c05Typ {
 	return &c05Typ{K: c05GenScalarKind(rt, false)}
 }
 
-func c05GenFields(rt *rapid.T, cfg *c05GenCfg, depth, maxN int, embedded bool) []c05Fld {
+func c05GenFields(rt *rapid.T, cfg *c05GenCfg, depth, maxN int, prefix string) []c05Fld {
 	n := rapid.IntRange(1, maxN).Draw(rt, "nfields")
 	fs := make([]c05Fld, n)
 	for i := range fs {
-		fs[i] = c05GenField(rt, cfg, depth, embedded)
+		fs[i] = c05GenField(rt, cfg, depth, prefix, i)
 	}
 	return fs
 }
 
-func c05GenField(rt *rapid.T, cfg *c05GenCfg, depth int, embedded bool) c05Fld {
+func c05GenField(rt *rapid.T, cfg *c05GenCfg, depth int, prefix string, idx int) c05Fld {
 	var f c05Fld
 	nw := rapid.IntRange(1, 2).Draw(rt, "nwords")
-	if embedded {
-		f.W = append(f.W, "emb")
+	if prefix != "" {
+		// children of embedded structs share the parent's key space: a prefix
+		// unique to the embedded field keeps keys distinct (also case-insensitively)
+		f.W = append(f.W, prefix)
 	}
 	for i := 0; i < nw; i++ {
 		f.W = append(f.W, c05Pick(rt, "word", c05Words))
@@ -115,11 +117,15 @@ func c05GenField(rt *rapid.T, cfg *c05GenCfg, depth int, embedded bool) c05Fld {
 	case "map":
 		f.T = c05Typ{K: "map", E: c05GenElem(rt, cfg, depth, true)}
 	case "struct":
-		f.T = c05Typ{K: "struct", F: c05GenFields(rt, cfg, depth+1, 4, false)}
+		f.T = c05Typ{K: "struct", F: c05GenFields(rt, cfg, depth+1, 4, "")}
 	case "pstruct":
-		f.T = c05Typ{K: "struct", P: true, F: c05GenFields(rt, cfg, depth+1, 4, false)}
+		f.T = c05Typ{K: "struct", P: true, F: c05GenFields(rt, cfg, depth+1, 4, "")}
 	case "embedded":
-		f.T = c05Typ{K: "struct", F: c05GenFields(rt, cfg, depth+1, 3, true)}
+		pre := prefix
+		if pre == "" {
+			pre = "e"
+		}
+		f.T = c05Typ{K: "struct", F: c05GenFields(rt, cfg, depth+1, 3, pre+string(rune('a'+idx)))}
 		f.Anon = true
 		f.Tag = ""
 		if !cfg.conf && rapid.IntRange(0, 9).Draw(rt, "embopt") == 0 {
@@ -290,6 +296,9 @@ func c05InsideRange(rt *rapid.T, rg *c05Rng, lo, hi int, isF bool) string {
 	}
 	if rg.L == "" {
 		l = r - 30
+		if l < float64(lo) && r >= float64(lo) {
+			l = float64(lo) // stay inside the kind (unsigned kinds: not below 0)
+		}
 	}
 	if rg.R == "" {
 		r = l + 30
@@ -321,6 +330,7 @@ func c05InsideRange(rt *rapid.T, rg *c05Rng, lo, hi int, isF bool) string {
 type c05DocGen struct {
 	rt      *rapid.T
 	plain   bool // only plain (must-be-accepted) content
+	p5      bool // request values: a field is absent only when optional and unconstrained
 	hostile int  // percentage of nested elements replaced by an arbitrary value
 }
 
@@ -619,6 +629,9 @@ func (g *c05DocGen) members(fs []c05Fld, depth int, m *[]c05KV) {
 			if f.T.K == "map" && !f.Opt || f.T.K == "struct" && !f.Opt || (f.T.K == "slice" && f.Def != nil) {
 				weights[1] = 0
 			}
+			if g.p5 && (!f.Opt || f.Def != nil || len(f.Opts) > 0 || f.Rng != nil || (f.T.K == "struct" && !f.T.P)) {
+				weights[1] = 0
+			}
 		} else {
 			names = []string{"plain", "absent", "boundary", "illtyped", "null", "dup", "any"}
 			weights = []int{46, 12, 22, 9, 4, 2, 5}
@@ -667,7 +680,7 @@ func c05GenCase(rt *rapid.T) c05Case {
 	}
 	cfg := &c05GenCfg{tag: tag, keyStyles: c05AllStyles, maxDepth: 3}
 	c := c05Case{EP: ep}
-	c.S = c05GenFields(rt, cfg, 1, 6, false)
+	c.S = c05GenFields(rt, cfg, 1, 6, "")
 	mode := c05W(rt, "docmode", []string{"mixed", "plain", "hostile"}, []int{60, 25, 15})
 	g := &c05DocGen{rt: rt, plain: mode == "plain", hostile: 6}
 	if mode == "hostile" {
